@@ -227,6 +227,11 @@ func SliceArgs(content string) (expr string, err error) {
 		}
 		if hasCodeBetweenEndAndBrace {
 			to = int(decl.Rbrace) - 1
+			// Don't include the padding before the closing brace in the expression,
+			// otherwise formatting adds another space to it on every run.
+			for to > from && unicode.IsSpace(rune(src[to-1])) {
+				to--
+			}
 		}
 		return false
 	})
